@@ -136,6 +136,11 @@ Proof. exact source_db_get_field_values. Qed.
 Theorem C07_source_db_timestamps_exact : forall d m, DInv d -> DbGetGen.gen_db_get_timestamps (db_prelude d) m = spec_timestamps m (db_rows d).
 Proof. exact source_db_get_timestamps. Qed.
 
+(* get_tag_values of the database: the index's dict of sets with every set sorted (None last) by a dict comprehension, or the scan - a dict of sets keyed
+   by the tags asked for (sorted) or by every tag met, filled row by row; compared as dicts (canon_dict: keys ascending) *)
+Theorem C07_source_db_tag_values_exact : forall d ks m, DInv d -> canon_dict (DbGetGen.gen_db_get_tag_values (db_prelude d) ks m) = spec_tag_values ks m (db_rows d).
+Proof. exact source_db_get_tag_values. Qed.
+
 Print Assumptions C07_source_index_len_is_the_model.
 Print Assumptions C07_source_index_valid_is_the_model.
 Print Assumptions C07_source_index_measurements_is_the_model.
@@ -159,3 +164,4 @@ Print Assumptions C07_source_db_field_keys_exact.
 Print Assumptions C07_source_db_tag_keys_exact.
 Print Assumptions C07_source_db_field_values_exact.
 Print Assumptions C07_source_db_timestamps_exact.
+Print Assumptions C07_source_db_tag_values_exact.
